@@ -242,6 +242,17 @@ class Builder:
                 self._put(parent, r)
             self._put(parent, b'\xe5' + self.short_rec(b'GONEBU~1', b'TXT', 0x20, 0, 0)[1:])
 
+    def plant_safe_save(self, parent, data=b'new content'):
+        """what a VFAT-unaware system leaves after a safe-save (write temp, delete original, rename temp): the LIVE long-name
+        records of the deleted original, its deleted short entry, then a live short entry with the SAME 11 bytes and no
+        long name of its own.  The run is orphaned (a long-name set names only the entry physically following it), although
+        its checksum matches the live entry.  Returns the tree node of the live entry."""
+        for r in self.lfn_recs('Quarterly Report 2024.doc', b'QUARTE~1DOC'):
+            self._put(parent, r)
+        self._put(parent, b'\xe5' + self.short_rec(b'QUARTE~1', b'DOC', 0x20, 0, 0)[1:])
+        self._pending_orphan.pop(id(parent), None)
+        return self.add(parent, 'QUARTE~1.DOC', (b'QUARTE~1', b'DOC'), data=data, lfn=False)
+
     def finish(self):
         g = self.g
         if g.fat_type == 'fat32' and g.fsinfo:
